@@ -85,6 +85,26 @@ func checkEditCase(c editCase, o *kit.Obs) error {
 		solid = c.Tree.Build()
 	}
 	var m *model3d.Mesh
+	// editors that make a new mesh from a mesh leave their source answering as before (index built beforehand)
+	var src *meshState3
+	var srcVals []model3d.Triangle
+	track := func(sm *model3d.Mesh) *model3d.Mesh {
+		tbl := sm.TriangleSlice()
+		if len(tbl) == 0 || len(tbl) > 600 {
+			return sm
+		}
+		src = &meshState3{m: sm, tbl: tbl, present: map[*model3d.Triangle]bool{}}
+		for i, f := range tbl {
+			src.present[f] = true
+			srcVals = append(srcVals, *f)
+			if i%(1+len(tbl)/10) == 0 {
+				src.pool = append(src.pool, f[i%3])
+			}
+		}
+		sm.VertexSlice()
+		src.indexed = true
+		return sm
+	}
 	switch c.Editor {
 	case "mcsearch", "mcsearch-aligned":
 		m = model3d.MarchingCubesSearch(solid, c.Delta, c.Iters)
@@ -93,11 +113,10 @@ func checkEditCase(c editCase, o *kit.Obs) error {
 	case "searchfilter":
 		m = model3d.MarchingCubesSearchFilter(solid, func(*model3d.Rect) bool { return true }, c.Delta, c.Iters)
 	case "flatten":
-		m = model3d.MarchingCubesSearch(solid, c.Delta, c.Iters)
-		m.VertexSlice()
+		m = track(model3d.MarchingCubesSearch(solid, c.Delta, c.Iters))
 		m = m.FlattenBase(c.Param)
 	case "elimedges":
-		m = model3d.MarchingCubesSearch(solid, c.Delta, 1)
+		m = track(model3d.MarchingCubesSearch(solid, c.Delta, 1))
 		lim := c.Delta * c.Param * 0.4
 		m = m.EliminateEdges(func(tmp *model3d.Mesh, seg model3d.Segment) bool { return seg[0].Dist(seg[1]) < lim })
 	case "elimedges-ulp":
@@ -156,9 +175,10 @@ func checkEditCase(c editCase, o *kit.Obs) error {
 			o.Skip("ulp-edge input is not a manifold")
 			return nil
 		}
+		track(m)
 		m = m.EliminateEdges(func(tmp *model3d.Mesh, seg model3d.Segment) bool { return seg[0].Dist(seg[1]) < 1e-9*c.Delta })
 	case "decimate":
-		m = model3d.MarchingCubesSearch(solid, c.Delta, 1)
+		m = track(model3d.MarchingCubesSearch(solid, c.Delta, 1))
 		m = model3d.DecimateSimple(m, c.Delta*c.Param*0.05)
 	case "dcrepair-lattice":
 		dc := &model3d.DualContouring{S: model3d.SolidSurfaceEstimator{Solid: solid}, Delta: 1, Repair: true, Clip: true}
@@ -166,6 +186,17 @@ func checkEditCase(c editCase, o *kit.Obs) error {
 	case "dcrepair", "dc":
 		dc := &model3d.DualContouring{S: model3d.SolidSurfaceEstimator{Solid: solid}, Delta: c.Delta, Repair: c.Editor == "dcrepair", Clip: true}
 		m = dc.Mesh()
+	}
+	if src != nil {
+		for i, f := range src.tbl {
+			if *f != srcVals[i] {
+				return fmt.Errorf("%s rewrote a face of the mesh it was applied to: %v became %v", c.Editor, srcVals[i], *f)
+			}
+		}
+		if err := src.full(); err != nil {
+			return fmt.Errorf("the mesh that %s was applied to no longer answers like the plain set of its faces: %w", c.Editor, err)
+		}
+		o.Label("source-rechecked")
 	}
 	tbl := m.TriangleSlice()
 	if len(tbl) == 0 {
